@@ -426,6 +426,42 @@ fn probes(mon: &mut C09) {
     }
 }
 
+/// Chains that have lived long: the same rules have to hold millions of blocks after every activation height (the
+/// subsidy has halved away, epochs are in the thousands, heights need more than 32 bits). A handful of ordinary blocks
+/// at fabricated heights far in the future.
+///
+/// (The code under test keeps a per-process table with one 16-byte entry per block height for the ERG inflator, so a
+/// state at height h costs h/64 MiB and h steps once per process. Random histories therefore stay below 23 million -
+/// past the last halving that leaves a non-zero subsidy; one fixed probe in shard 0 crosses block 128 950 000, where the
+/// subsidy's halving count reaches the width of its integer type, at a cost of 2 GiB in that one process.)
+fn far_future_scenario(mon: &mut C09, case_seed: u64, r: &mut Rng, fixed: Option<(NetID, u64)>) {
+    let net = fixed.map(|f| f.0).unwrap_or(*r.pick(&[NetID::Custom02, NetID::Custom08, NetID::Testnet, NetID::Mainnet]));
+    let base = *r.pick(&[5_000_000u64, 9_949_990, 20_949_997, 21_949_998, 22_000_000]);
+    let height = fixed.map(|f| f.1).unwrap_or(base + r.below(6));
+    let mut w = World::fabricated(case_seed, net, height, *r.pick(&[0u128, 1000]), 1 << 40);
+    mon.case_seed = case_seed;
+    w.profile.hostile = 5;
+    mon.rep.count("histories at heights far in the future");
+    for b in 0..4 {
+        if w.dead {
+            break;
+        }
+        let (txs, labels) = w.gen_batch();
+        if !txs.is_empty() {
+            mon.journal(&format!("C09 far-future case={} height={} block={} labels={:?}", case_seed, height, b, labels));
+            let ev = w.apply_batch(txs, labels);
+            mon.on_batch(&w, &ev);
+        }
+        if w.dead {
+            break;
+        }
+        mon.journal(&format!("C09 far-future case={} height={} block={} seal", case_seed, height, b));
+        let action = w.gen_action();
+        let ev = w.seal_next(action);
+        mon.on_seal(&w, &ev);
+    }
+}
+
 /// Coins locked by adversarial covenant programs, spent through apply_tx: the interpreter and the
 /// weigher run inside validation, so whatever a program does there must end in accept or reject.
 fn covenant_scenario(mon: &mut C09, case_seed: u64) {
@@ -670,9 +706,11 @@ pub fn run(p: &Params) -> Report {
     let mut rng = Rng::new(p.shard_seed() ^ 0xC09);
     let journal = p.journal.as_ref().and_then(|j| std::fs::File::create(j).ok());
     let mut mon = C09 { rep: Report::new("C09"), case_seed: 0, journal };
-    mon.rep.rule = "cases = API calls (apply_tx_batch, seal, next_unsealed, apply_block, confirm, from_block+header) on random histories over all network classes and fabricated heights with: one hostile mutation per batch (16 field-level mutators + byte-level mutation of the serialization that still deserializes), degenerate requests (zero-valued swaps/deposits/withdrawals, empty/garbage/partial MelPoW proofs at difficulties 0..2^32, undecodable stake documents, faucet-minted liquidity tokens, maximal values), every proposer delta class, multipliers 0..2^40; coins locked by adversarial covenant programs (self-append doubling up to 2^60 elements, nested loops, random bytes/instructions, environment digging, slices/references/updates at, inside and beyond the ends with indexes in either order) spent through apply_tx, sometimes next to a listed-only covenant whose weight is beyond 128 bits; histories in which a user creates (and empties) the ERG/SYM pool before the rules enable the built-in one; transactions with 255/256/257/up to 700 inputs of existing coins, 255/256 outputs and hundreds of covenants and signature slots; every call runs under catch_unwind with a panic hook that records message, location and originating crate; each shard is its own process with a journal so an abort is attributed. Supply per denomination is kept below 2^127 by construction. Non-trivial = batch with a hostile or degenerate member; distinct by member hashes".into();
+    mon.rep.rule = "cases = API calls (apply_tx_batch, seal, next_unsealed, apply_block, confirm, from_block+header) on random histories over all network classes and fabricated heights with: one hostile mutation per batch (16 field-level mutators + byte-level mutation of the serialization that still deserializes), degenerate requests (zero-valued swaps/deposits/withdrawals, empty/garbage/partial MelPoW proofs at difficulties 0..2^32, undecodable stake documents, faucet-minted liquidity tokens, maximal values), every proposer delta class, multipliers 0..2^40; coins locked by adversarial covenant programs (self-append doubling up to 2^60 elements, nested loops, random bytes/instructions, environment digging, slices/references/updates at, inside and beyond the ends with indexes in either order) spent through apply_tx, sometimes next to a listed-only covenant whose weight is beyond 128 bits; histories in which a user creates (and empties) the ERG/SYM pool before the rules enable the built-in one; histories at heights 5 to 22 million (the subsidy halving away) and one across block 128 950 000 (the 128th halving); transactions with 255/256/257/up to 700 inputs of existing coins, 255/256 outputs and hundreds of covenants and signature slots; every call runs under catch_unwind with a panic hook that records message, location and originating crate; each shard is its own process with a journal so an abort is attributed. Supply per denomination is kept below 2^127 by construction. Non-trivial = batch with a hostile or degenerate member; distinct by member hashes".into();
     if p.shard == 0 && p.only_case.is_none() {
         probes(&mut mon);
+        let mut r = Rng::new(0xfa7);
+        far_future_scenario(&mut mon, 7300, &mut r, Some((NetID::Custom02, 128_949_997)));
     }
     for _ in 0..mine {
         let case_seed = rng.next();
@@ -687,6 +725,10 @@ pub fn run(p: &Params) -> Report {
         covenant_scenario(&mut mon, case_seed);
         if case_seed % 8 == 0 {
             boundary_size_scenario(&mut mon, case_seed);
+        }
+        if case_seed % 8 == 2 {
+            let mut r = Rng::new(case_seed ^ 0xfa7);
+            far_future_scenario(&mut mon, case_seed, &mut r, None);
         }
         if case_seed % 8 == 1 {
             // a user-created pool under the name of a built-in pool that is not enabled yet, across the activation
@@ -708,6 +750,7 @@ pub fn run(p: &Params) -> Report {
         mon.rep.require("apply_tx_batch calls", p.n(1500, 30000));
         mon.rep.require("seal calls", p.n(1500, 30000));
         mon.rep.require("apply_tx calls with 255 or more inputs", p.n(100, 2000));
+        mon.rep.require("histories at heights far in the future", p.n(100, 2000));
     }
     mon.rep
 }
